@@ -117,6 +117,10 @@ theorem C14_failed_response (r : Resp) (c : Nat) (h : r.status = some c) (hc : c
   · unfold respPath; simp only [he]
     split <;> first | exact ⟨_, rfl⟩ | simp_all
 
+/-- the DAV:error element of a failed response travels inside the error, with or without a description -/
+theorem C14_failed_response_carries_error_element (r : Resp) (h : r.hasError = true) : respWrapped r = .dav := by
+  unfold respWrapped; simp [h]
+
 /-- a property listed under a non-200 propstat is an error carrying that propstat's code -/
 theorem C14_failed_propstat (r : Resp) (name : String) (i : Nat) (ps : PropStat) (he : respErr r = none)
     (hf : findStat name r.propstats 0 = some (i, ps)) (hs : ps.status ≠ 200) : decodeProp r name = .http ps.status := by
@@ -180,11 +184,12 @@ theorem C14_flat (rs : List Resp) (r : Resp) : flat rs = some r ↔ rs = [r] := 
 
 -- non-vacuity -------------------------------------------------------------------------------------------------------------------
 
-example : decodeProp ⟨["/a"], none, [⟨404, ["getetag"]⟩, ⟨200, ["getetag", "displayname"]⟩]⟩ "getetag" = .http 404 := by decide
-example : decodeProp ⟨["/a"], none, [⟨404, ["getetag"]⟩, ⟨200, ["displayname"]⟩]⟩ "displayname" = .value 1 := by decide
-example : syncOne "/ab/" ⟨["/ab/x.vcf"], some 404, []⟩ = .deleted "/ab/x.vcf" := by decide
-example : syncOne "/ab/" ⟨["/ab/x.vcf"], none, [⟨200, ["getetag"]⟩]⟩ = .updated "/ab/x.vcf" := by decide
-example : syncOne "/ab/" ⟨["/ab/x.vcf"], none, [⟨403, ["getetag"]⟩]⟩ = .fail := by decide
+example : decodeProp { hrefs := ["/a"], status := none, propstats := [⟨404, ["getetag"]⟩, ⟨200, ["getetag", "displayname"]⟩] } "getetag" = .http 404 := by decide
+example : decodeProp { hrefs := ["/a"], status := none, propstats := [⟨404, ["getetag"]⟩, ⟨200, ["displayname"]⟩] } "displayname" = .value 1 := by decide
+example : syncOne "/ab/" { hrefs := ["/ab/x.vcf"], status := some 404, propstats := [] } = .deleted "/ab/x.vcf" := by decide
+example : syncOne "/ab/" { hrefs := ["/ab/x.vcf"], status := none, propstats := [⟨200, ["getetag"]⟩] } = .updated "/ab/x.vcf" := by decide
+example : syncOne "/ab/" { hrefs := ["/ab/x.vcf"], status := none, propstats := [⟨403, ["getetag"]⟩] } = .fail := by decide
+example : respWrapped { hrefs := ["/a"], status := some 423, propstats := [], hasError := true, hasDesc := true } = .dav := by decide
 example : doOut 403 .xml .davError = .http 403 .dav ∧ doOut 199 .absent .blank = .http 199 .nothing ∧ doOut 204 .bad .garbage = .ok := by decide
 
 end GoWebdav.Props.C14
